@@ -328,7 +328,7 @@ structure LoadedProg where
   gen : Nat := 0                          -- which program block this is (a new number for every load of the name)
   loadTime : Nat := 0                     -- `ob->load_time` of the object that owns it
   linked : List (String × Nat) := []      -- `prog->inherit[i].prog`: name and block number of every inherited program
-  deriving Repr, BEq, Inhabited
+  deriving Repr, BEq, DecidableEq, Inhabited
 
 structure World where
   files : List (String × Nat) := []       -- path relative to the mudlib ↦ st_mtime (sources, includes, binaries)
